@@ -1,5 +1,8 @@
 import Ptn.C13.Model
 import Ptn.C13.Lemmas
+import Ptn.C13.Total
+import Ptn.C13.Scale
+import Ptn.C13.Symbols
 /-! Property theorems for C13 (symbolic Gaussian elimination is an exact factorisation).  Only
 property theorems and non-vacuity examples live here; helper lemmas are in `Sum`, `Views`,
 `EntryLemmas`, `RowSteps`, `ColSteps`, `Lemmas`.
@@ -61,6 +64,14 @@ theorem delete_zero_cols_preserves (n : Nat) (s : St) (zs : List Nat) (hnd : zs.
     (hz : ∀ ρ z, z ∈ zs → ∀ k, gE ρ s.A k z = 0) : ColRel n s (s.delCols (sortDesc zs)) :=
   colRel_delCols_zero n s zs hnd hlt hz
 
+/-- `row_scale` / `col_scale` (in the file, not used by `gaussian_elimination`): the model answers only
+    for `f ≠ 0` (the code raises on `1/f` otherwise) and then the product is kept. -/
+theorem row_scale_preserves (n : Nat) (st st' : St) (r : Nat) (f : Rat) (h : st.rowScale r f = some st') :
+    f ≠ 0 ∧ RowRel n st st' := rowRel_rowScale n st st' r f h
+
+theorem col_scale_preserves (n : Nat) (st st' : St) (c : Nat) (f : Rat) (h : st.colScale c f = some st') :
+    f ≠ 0 ∧ ColRel n st st' := colRel_colScale n st st' c f h
+
 /-- A non-zero answer of `are_parallel_row` is a true proportionality factor (no empty symbol). -/
 theorem are_parallel_row_sound (ρ : Nat → Rat) (A : EMat) (w i j : Nat) (μ : Rat) (hA : Rect A w)
     (hn : NESM A) (hi : i < A.length) (hj : j < A.length)
@@ -84,6 +95,52 @@ theorem row_elimination_preserves (n : Nat) (s : St) : RowRel n s (rowEliminatio
 
 theorem column_elimination_preserves (n : Nat) (s : St) : ColRel n s (columnElimination s) :=
   colRel_columnElimination n s
+
+/-! Non-vacuity of the hypotheses of the lemmas above on concrete states. -/
+
+example : WS 2 exState := ⟨by unfold Rect; decide, by unfold Rect; decide, by unfold Rect; decide, by decide⟩
+
+/-- `row_add` really acts: row 1 becomes `[0, a]`, column 0 of `L` becomes `[1, 2]`. -/
+example : (exState.rowAdd 1 0 (-2)).1.A = [[.num 1, .sym 1 1], [.num 0, .sym 1 1]]
+    ∧ (exState.rowAdd 1 0 (-2)).1.L = [[1, 0], [2, 1]] := by decide +kernel
+
+/-- `col_add` is refused by the guard here (number onto a symbol): nothing changes. -/
+example : (exState.colAdd 1 0 (-1)).1.A = exState.A ∧ (exState.colAdd 1 0 (-1)).1.R = exState.R := by
+  decide +kernel
+
+example : (exState.rowSwap 0 1).A = [[.num 2, .sym 3 1], [.num 1, .sym 1 1]]
+    ∧ (exState.rowSwap 0 1).L = [[0, 1], [1, 0]] := by decide +kernel
+
+example : (exState.rowScale 0 2).isSome = true ∧ (exState.rowScale 0 0).isSome = false := by
+  decide +kernel
+
+example : WS 2 exStateZeroRow :=
+  ⟨by unfold Rect; decide, by unfold Rect; decide, by unfold Rect; decide, by decide⟩
+
+/-- The hypotheses of `delete_zero_rows_preserves` hold for `zs = [1]`, and the deletion acts. -/
+example : [1].Nodup ∧ (∀ z, z ∈ [1] → z < exStateZeroRow.A.length) ∧ [1].length < exStateZeroRow.A.length
+    ∧ (∀ (ρ : Nat → Rat) z, z ∈ [1] → ∀ l, gE ρ exStateZeroRow.A z l = 0)
+    ∧ (exStateZeroRow.delRows (sortDesc [1])).A = [[.num 1, .sym 1 1], [.num 2, .sym 1 2]]
+    ∧ (exStateZeroRow.delRows (sortDesc [1])).L = [[1, 0], [0, 0], [0, 1]] := by
+  refine ⟨by decide, by decide, by decide, ?_, by decide +kernel, by decide +kernel⟩
+  intro ρ z hz l
+  simp only [List.mem_singleton] at hz
+  subst hz
+  match l with
+  | 0 => simp [gE, gM, exStateZeroRow, Entry.eval]
+  | 1 => simp [gE, gM, exStateZeroRow, Entry.eval]
+  | l + 2 => simp [gE, gM, exStateZeroRow, Entry.eval]
+
+/-- `are_parallel_row` answers `3` on the rows of `exStateParallel`, `deparallelize_rows` merges them. -/
+example : areParallelRow (exStateParallel.A.getD 0 []) (exStateParallel.A.getD 1 []) = 3
+    ∧ areParallelCol exStateParallel.A 0 1 = 0
+    ∧ (deparallelizeRows exStateParallel).A = [[.num 1, .sym 1 1]]
+    ∧ (deparallelizeRows exStateParallel).L = [[1], [3]] := by decide +kernel
+
+example : NESM exStateParallel.A := by
+  intro r hr e he
+  simp [exStateParallel] at hr
+  rcases hr with rfl | rfl <;> simp at he <;> rcases he with rfl | rfl <;> simp [Entry.NES]
 
 /-! ### the property -/
 
@@ -155,6 +212,47 @@ example : gaussianElimination
         [[.num 1, .sym 1 1, .num 0], [.num 2, .num 4, .sym 1 2], [.num 0, .sym (-2) 1, .sym 1 2]]
         [[1, 0, 0], [0, 1, 0], [0, 0, 1]] := by decide +kernel
 
+/-- **Totality.**  On in-domain input (`NZM`: every symbolic entry has a non-zero coefficient) the code
+    returns a triple: no `ZeroDivisionError`, and the fuel that replaces the three `while` loops of the
+    model (`min(rows, cols)` for the two elimination loops, `m + n + 1` for the fixed-point loop) is
+    never exhausted. -/
+theorem sge_total (M : EMat) (n : Nat) (hpos : 0 < M.length) (hrect : Rect M n) (hnes : NESM M)
+    (hnz : NZM M) : ∃ L A R, gaussianElimination M = .ok L A R := by
+  have h := (oks_gaussSt M n hpos hrect hnes hnz).ok
+  unfold gaussianElimination
+  simp only [h]
+  exact ⟨_, _, _, rfl⟩
+
+theorem sge_fuel_suffices (M : EMat) (n : Nat) (hpos : 0 < M.length) (hrect : Rect M n) (hnes : NESM M)
+    (hnz : NZM M) : gaussianElimination M ≠ .fuelOut := by
+  obtain ⟨L, A, R, h⟩ := sge_total M n hpos hrect hnes hnz
+  rw [h]; simp
+
+theorem sge_no_zero_division (M : EMat) (n : Nat) (hpos : 0 < M.length) (hrect : Rect M n)
+    (hnes : NESM M) (hnz : NZM M) : gaussianElimination M ≠ .zeroDiv := by
+  obtain ⟨L, A, R, h⟩ := sge_total M n hpos hrect hnes hnz
+  rw [h]; simp
+
+/-- Totality and exactness together: every in-domain matrix has an exact factorisation returned. -/
+theorem sge_exact_total (M : EMat) (n : Nat) (hpos : 0 < M.length) (hrect : Rect M n) (hnes : NESM M)
+    (hnz : NZM M) :
+    ∃ L A R, gaussianElimination M = .ok L A R ∧
+      L.length = M.length ∧ Rect L A.length ∧ Rect A R.length ∧ Rect R n ∧
+      0 < A.length ∧ A.length ≤ M.length ∧ R.length ≤ n ∧
+      ∀ ρ : Nat → Rat, matMul (matMul L (evalM ρ A) R.length) R n = evalM ρ M := by
+  obtain ⟨L, A, R, h⟩ := sge_total M n hpos hrect hnes hnz
+  obtain ⟨⟨h1, h2, h3, h4⟩, ⟨h5, h6, h7⟩, _⟩ := sge_exact M n hpos hrect hnes L A R h
+  exact ⟨L, A, R, h, h1, h2, h3, h4, h5, h6, h7,
+    fun ρ => sge_exact_matrix M n hpos hrect hnes L A R h ρ⟩
+
+/-- Non-vacuity of the domain hypotheses (`NESM`, `NZM`) on a matrix with symbols. -/
+example : NESM [[Entry.num 1, Entry.sym 1 1], [Entry.sym 2 1, Entry.num 0]]
+    ∧ NZM [[Entry.num 1, Entry.sym 1 1], [Entry.sym 2 1, Entry.num 0]] := by
+  refine ⟨?_, ?_⟩ <;>
+  · intro r hr e he
+    simp at hr
+    rcases hr with rfl | rfl <;> simp at he <;> rcases he with rfl | rfl <;> simp [Entry.NES, Entry.NZ]
+
 /-- **No mixing** (by the type of the model): every entry of the reduced matrix is a rational or a
     rational multiple of one symbol; its value is that monomial. -/
 theorem sge_no_mixing (M : EMat) (L : RMat) (A : EMat) (R : RMat)
@@ -165,6 +263,27 @@ theorem sge_no_mixing (M : EMat) (L : RMat) (A : EMat) (R : RMat)
   cases e with
   | num q => exact Or.inl ⟨q, rfl, fun _ => rfl⟩
   | sym q s => exact Or.inr ⟨q, s, rfl, fun _ => rfl⟩
+
+/-- **No new symbols**: every symbol of the reduced matrix is a symbol of the input (`S` any set of
+    symbols containing those of `M`). -/
+theorem sge_no_new_symbols (M : EMat) (S : Nat → Prop) (hS : AllE (Entry.SymIn S) M)
+    (L : RMat) (A : EMat) (R : RMat) (h : gaussianElimination M = .ok L A R) :
+    AllE (Entry.SymIn S) A := by
+  have hs := sym_gaussSt (S := S) M hS
+  unfold gaussianElimination at h
+  simp only at h
+  split at h
+  · simp only [Outcome.ok.injEq] at h
+    obtain ⟨_, rfl, _⟩ := h
+    exact hs
+  · simp at h
+  · simp at h
+
+/-- Non-vacuity: the symbols of `[[1, a],[2a, 0]]` lie in `{a}` (`a` = symbol 1). -/
+example : AllE (Entry.SymIn (· = 1)) [[Entry.num 1, Entry.sym 1 1], [Entry.sym 2 1, Entry.num 0]] := by
+  intro r hr e he
+  simp at hr
+  rcases hr with rfl | rfl <;> simp at he <;> rcases he with rfl | rfl <;> simp [Entry.SymIn]
 
 /-! ### what the code does outside the stated input domain (witnesses, replayed on the real code) -/
 
